@@ -71,6 +71,9 @@ REVERTS = [
     ('F76-v6-salt-length-at-sign', '4e11c98', {'C06': ['S06-9:salt-length-checked']}),
     ('F77-ecdh-point-prefix', 'd079c9f', {'C05': ['S05-17:dropped-prefix-compared']}),
     ('F78-v2-secret-checksum', 'b4f643c', {'C05': ['S05-18:v2-as-v3']}),
+    ('F79-unhashed-issuer-fingerprint-version', '00f6cb9', {'C15': ['S15-6:issuer-fp-version-every-area']}),
+    ('F80-armor-dash-line-blanks', '6823cca', {'C10': ['S10-8:dash-line-trailing-blanks']}),
+    ('F81-partial-chunk-size-bound', '12682c3', {'C17': ['S17-6:partial-chunk-size-at-most-2^30']}),
     ('F67-ecdh-zero-padding', '5930fe1', {'C12': ['ecdh:unpad-lower-bound']}),
     ('F68-armor-leading-dashes', 'cfc42e1', {'C10': ['S10-7:leading-text-skipped-to-full-opener']}),
 ]
